@@ -131,7 +131,7 @@ def add_iiv(
         eta = NormalDistribution.create(eta_name, 'iiv', 0, omega)
 
         rvs = rvs + eta
-        pset.append(Parameter(str(omega), init=initial_estimate))
+        pset.append(Parameter.create(str(omega), init=initial_estimate, lower=0))
 
         index = sset.find_assignment_index(list_of_parameters[i])
 
